@@ -26,6 +26,14 @@ CONFIG = dict(
              'oracles), the same instances are initialised in a FRESH pipeline (twin, judged the same), and the content of the pipeline is recorded - after a FAILING call it must hold exactly the instances it held before (PROPFAIL [failed-initialize]) '
              'in name order (model), and the sequence continues from it. In the odd runs of every sequence kind a second, unrelated pipeline is driven through the same registry between the calls (shared structures). '
              'kind twopaths: the refiner of a doubly provided entity reads it through 0..4 intermediate consumers, parallel or chained, 1..3 items deep, with / without requiring the entity itself; kind namecollide: 2..4 items named X next to an item literally named X_j. '
+             '(vi) round 4 (content of values, two features at once): every case of the kinds regorder / featnames / regworld / regworldreal / regorderreal / seqworld has ITS OWN registry - the maps of hercules.Registry are emptied and filled again '
+             'through Registry.Register in an order the generator chooses, with synthetic registered item types (feature-gated or plain) next to, before or instead of the built-in ones; the registry table read back through Summon travels with the case '
+             'and DeployItem / Initialize are judged as before (extracted deploy, closure_names, resolve, validators). regorder: exhaustive, one entity with 2 or 3 providers each plain / gated by f / by g / by both / featured without features, in every order of '
+             'registration, x every subset of {f, g} switched on x requirement in the deployed item / one level below / features declared by the deployed item x the first registered provider a refiner or not; featnames: pairs (feature the provider is gated by, feature switched on) '
+             'over 30+ spellings of one name (case variants, leading / trailing / inner blanks, tab, LF, CRLF, CR, NUL, BOM, invalid UTF-8 next to a real U+FFFD, NBSP, U+3000, U+2028, overlong and surrogate bytes, NFC / NFD, prefix / suffix / doubled, dotted and dotless i, sharp s, the empty string), switched on by SetFeature or declared by the deployed item, a second gated provider with the other spelling and a plain one registered behind; '
+             'regworld: random worlds of 2..9 registered items with names, entity keys and features drawn from pools of such look-alikes, entities with 1..4 providers, requirements on item names, 1..3 deployments; regworldreal / regorderreal: the built-in items registered in a random order, '
+             'with 0..3 synthetic (gated) providers / refiners of built-in entities among them, 1..3 leaves deployed with spellings of uast switched on; kind seqworld: the call sequences of (iv) / (v) - SetFeature of look-alike spellings between the deployments, AddItem / DeployItem of registered items and unregistered featured roots, RemoveItem, re-deployment, restore, Initialize in the middle - inside a random world; kind bytenames: the synthetic item sets of (ii) with names and keys replaced by look-alike byte strings (AddItem + Initialize); '
+             'kind widths: 9, 10, 11, 99, 100, 101 (thorough 999, 1000, 1001) same-named items. Strings are %-escaped in the trace and decoded by the replay driver before they are ranked. '
              'Each case is run 4 times (Go randomises map iteration); the 4 runs also vary the other options Initialize reads: none / DAG dump to a file / DumpPlan + PrintActions + hibernation distance / all. '
              'Non-trivial = at least 2 items and at least one requirement; distinct = distinct input (item list, or feature list + deployment list, or call sequence).',
         exhaustive_note='all 512 subsets of the registered leaf analyses x {uast off, uast on} (thorough: in two deployment orders), every '
@@ -33,6 +41,7 @@ CONFIG = dict(
                         'are subsets of {a,b} (thorough: also 2 items over 3 entities); every sequence of at most 3 (thorough 4) API calls over the alphabet '
                         '{AddItem TreeDiff, DeployItem TreeDiff, AddItem IdentityDetector, DeployItem Couples, DeployItem FileDiffRefiner, RemoveItem oldest / newest TreeDiff, '
                         'RemoveItem newest IdentityDetector, SetFeature uast}; the whole grid stages 1..8 x side chain 0..8 of the cascade family; round 3: after [AddItem C, B, E, A; Initialize] every sequence of at most 3 (thorough 4) calls over '
+                        'round 4: one entity x 2 providers x 5 gate kinds each (3 providers x 3 gate kinds) in every order of registration x every subset of 2 features x 3 positions of the requirement x refiner first or not (1,040 cases); the diagonal and the first five rows / columns (thorough: all pairs) of the feature-spelling table; '
                         '{AddItem A / cyclic A / B / B with other requirements / U (unknown entity), RemoveItem oldest A / newest A / B / C / E / U, restore A / B, Initialize} followed by Initialize; every leaf x uast x deployed item x 3 ways of replacing it',
         assumptions=['item names and entity keys enter the model as integer ranks of the strings under byte-wise order (what resolve uses of '
                      'them: equality and Go string order); the replay driver computes the ranks, the bracketed key names "[k]" and the '
@@ -44,6 +53,8 @@ CONFIG = dict(
                      'AddItem appends the instance, RemoveItem deletes the first occurrence of the instance and nothing else: three lines of Go each, mirrored in the replay driver (not in Coq); '
                      'SetFeature / DeployItem are the extracted set_feature / deploy; a failing Initialize leaves the items sorted by name (stable sort in the driver), a successful one in the order it reports; the model continues from the order the implementation left',
                      'item sets with more than 64 items (kind scale) are not run through the model: judged by perm_b / chain_order_ok / unsatisfiedb on the implementation output',
+                     'round 4: the registry of a world case is installed by emptying the three maps of hercules.Registry (reflect + unsafe in the harness, no hook in the repository) and calling the public Registry.Register in the chosen order; '
+                     'a synthetic registered item is a Go type whose Name / Provides / Requires / Features read a table (Summon creates zero values through reflection); strings are %-escaped in the trace (injective; decoded by the driver)',
                      'registry: one registered item per name (checked per run by the extracted reg_okb on the registry table read from the implementation)'],
         trusted_base=['hand-written Gallina models coq/theories/Pipeline/Resolve.v (Pipeline.resolve) and Deploy.v (Pipeline.DeployItem, '
                       'Registry.Summon) on top of coq/theories/Toposort/Model.v, tied to the code by the replay of every harness case',
